@@ -18,7 +18,7 @@ namespace CssVerif.Codec
 
 /-- the encoding `StreamReader.decode` settles on for the data seen so far (`codec.py:524-533`), `enc` being
 the current value of `self.encoding`; `none` = `return ("", 0)` ("no encoding determined yet") -/
-def choose (enc : Option Name) (force : Bool) (data : List Nat) : Option Name :=
+def readerEnc (enc : Option Name) (force : Bool) (data : List Nat) : Option Name :=
   match enc, force with
   | some g, true => some g
   | _, _ => (detect data false).map (pick enc force)
@@ -34,7 +34,7 @@ inductive RSt where
 /-- one turn of the `read()` loop: `data = bytebuffer + newdata`, `self.decode(data)`; returns `newchars` -/
 def rstep (I : Inner) (force : Bool) : RSt → List Nat → RSt × List Nat
   | .waiting enc bb, input =>
-    match choose enc force (bb ++ input) with
+    match readerEnc enc force (bb ++ input) with
     | none => (.waiting enc (bb ++ input), [])
     | some E =>
       -- `self.encoding = encoding`; a fresh inner reader decodes the whole data (`codec.py:534-536`)
@@ -56,12 +56,12 @@ def readAll (I : Inner) (given : Option Name) (force : Bool) (cs : List (List Na
 
 /-- the data seen so far does not let the reader start: no encoding yet, or the `@charset` rule is open -/
 def RUnd (I : Inner) (given : Option Name) (force : Bool) (a : List Nat) : Prop :=
-  match choose given force a with
+  match readerEnc given force a with
   | none => True
   | some E => fixEncoding (I.out E a false) E false = none
 
 instance (I : Inner) (given : Option Name) (force : Bool) (a : List Nat) : Decidable (RUnd I given force a) :=
-  match h : choose given force a with
+  match h : readerEnc given force a with
   | none => isTrue (by unfold RUnd; rw [h]; trivial)
   | some E =>
     if h2 : fixEncoding (I.out E a false) E false = none then isTrue (by unfold RUnd; rw [h]; exact h2)
